@@ -248,7 +248,7 @@ def initStep (st : ISt) (t : List String) (implObs : String) : Option (ISt × St
       | some key => some ({ st with parties := setS st.parties name { key, trusted, algos, nodeId } }, "ok", "-")
       | none => some (st, "bad-op", "-")
     | _, _, _, _ => some (st, "bad-op", "-")
-  | ["iattempt", att, party, pl] =>
+  | "iattempt" :: att :: party :: pl :: _ =>
     match lookupS st.parties party, Bytes.ofHex (pl.drop 8).toString, (field implObs "hash").bind Bytes.ofHex with
     | some p, some payload, some hash =>
       let ist : InitSt := { nodeId := p.nodeId, hash, payload, ownKey := p.key, trusted := p.trusted, algos := p.algos }
